@@ -450,6 +450,12 @@ func (s *Scenario) buildDoc(rng *rand.Rand) *genesis.Document {
 		st.CommonPool = q([]uint64{1_000_000, 1_000_000, 700, 4_000, 20_000}[rng.IntN(5)])
 	}
 	add(&st.CommonPool)
+	if s.Seed%4 == 1 {
+		// A genesis document taken from a state dump in which the voters' / next proposer's fee
+		// share of the last block was still pending (no PRNG draw: existing scenarios keep theirs).
+		st.LastBlockFees = q(7 + s.Seed%90)
+		add(&st.LastBlockFees)
+	}
 	st.TotalSupply = *total
 
 	fv := migrations.Version261
